@@ -187,6 +187,58 @@ def pd_from_panel(p, model=None):
 
 
 
+def bay_sum_cases(rng, q, n_cases):
+    """stiffener-less StiffPanelBay whose skin tiles carry their OWN stack, thickness, material, density and offset
+    (add_panel arguments): the bay matrix must be the sum of the tiles' matrices.  Returns trace 'sum' events data"""
+    from compmech.stiffpanelbay import StiffPanelBay
+    lp1 = (10., 2., 0.25, 1., 1., 0.5)
+    lp2 = (20., 1., 0.3, 2., 2., 1., 1., 0.2, 0.2)
+    out = []
+    for case in range(n_cases):
+        curved = rng.random() < 0.4
+        b = StiffPanelBay()
+        b.model = MODELS["cpanel" if curved else "plate"]
+        b.a, b.b = rng.choice([(2., 1.5), (1., 2.), (1.5, 1.5)])
+        if curved:
+            b.r = rng.choice([4., 10.])
+        b.m, b.n = rng.randint(1, 3), rng.randint(2, 3)
+        b.stack, b.plyt, b.laminaprop, b.mu = [0, 90], 0.125, lp1, float(rng.choice([1., 3.]))
+        for d in "uvw":
+            for e in ("1tx", "1rx", "2tx", "2rx", "1ty", "1ry", "2ty", "2ry"):
+                setattr(b, d + e, float(rng.choice([0, 1, 1, 2])))
+        cuts = sorted(set([0.] + [rng.choice([0.25, 0.5, 0.75, 1.0, 1.25]) for _ in range(rng.randint(1, 2))] + [b.b]))
+        cuts = [c for c in cuts if c <= b.b]
+        N = [float(rng.randint(-8, 8)) / 2 for _ in range(3)]
+        for y1, y2 in zip(cuts[:-1], cuts[1:]):
+            kw = {}
+            style = rng.choice(["inherit", "own", "own"])
+            if style == "own":
+                kw = dict(stack=rng.choice([[45, -45, 0], [90], [0, 45]]), plyt=rng.choice([0.125, 0.25]),
+                          laminaprop=rng.choice([lp1, lp2]), mu=float(rng.choice([2., 5., 0.5])),
+                          offset=rng.choice([0., 0.125, -0.25]))
+            p = b.add_panel(y1=y1, y2=y2, **kw)
+            p.Nxx, p.Nyy, p.Nxy = N
+        # the descriptions are taken from what was ASKED for (right after add_panel), not from the objects after use
+        parts = []
+        for p in b.panels:
+            pd = pd_from_panel(p, model="cpanel" if curved else "plate")
+            pd["y1"], pd["y2"] = exact(p.y1), exact(p.y2)
+            parts.append(pd)
+        b.calc_k0(silent=True)
+        if q == "k0":
+            M = b.k0
+        elif q == "kG0":
+            M = b.calc_kG0(silent=True)
+        else:
+            M = b.calc_kM(silent=True)
+        req = dict(q=q, size=0, row0=0, col0=0)
+        if q == "kG0":
+            req["N"] = [exact(v) for v in N]
+        A = M.toarray()
+        out.append((parts, req, [[dyadic(v) for v in row] for row in A], bool(np.all(np.isfinite(A)))))
+    return out
+
+
 def repo_scenarios():
     """panel definitions of the repository's own tests (test_panel_lb / test_panel_freq / test_panel_field_outputs):
     decimal inputs such as 0.125e-3 or 0.28 are validated as the exact rationals their doubles are"""
@@ -399,6 +451,10 @@ def observe_nl(p, pd, req, kw):
         Fn = np.ascontiguousarray(np.array([[(t0 + tx * xg[i] + ty * yg[j]) * F for j in range(ny)] for i in range(nx)]))
     Fn0 = None if Fn is None else Fn.copy()
     k2 = dict(kw)
+    if req.get("dflt"):
+        # the orders come from the panel's own nx / ny attributes (what the drivers and assemblies rely on)
+        p.nx, p.ny = nx, ny
+        nx = ny = None
     if q == "fint":
         if k2:
             k2 = dict(size=kw["size"], col0=kw["col0"])
@@ -461,7 +517,7 @@ def observe_load(p, pd, req, kw):
 def jreq(r):
     out = dict(q=r["q"], size=r.get("size", 0), row0=r.get("row0", 0), col0=r.get("col0", 0))
     for k in ("N", "flow", "beta", "gamma", "aeromu", "c", "pts", "NL", "forces", "forcesInc", "inc", "cores", "num", "extra", "table",
-              "mach", "root", "rho", "V", "ainf", "via", "k0first", "taper", "route", "ctor", "nofin", "sweep"):
+              "mach", "root", "rho", "V", "ainf", "via", "k0first", "taper", "route", "ctor", "nofin", "sweep", "dflt"):
         if k in r:
             out[k] = r[k]
     return out
@@ -572,7 +628,8 @@ def random_req(rng, pd, q):
     if q in ("fint", "kT", "kGc"):
         amp = rng.choice([1, 1, 4, 32])
         r["c"] = [rat(Fraction(rng.randint(-8, 8), 16 * amp)) for _ in range(size)]
-        r["extra"] = [rng.choice([0, 0, 1, 3, 9]), rng.choice([0, 0, 2, 5])]
+        r["extra"] = [rng.choice([0, 1, 3, 9]), rng.choice([0, 2, 4, 5])]
+        r["dflt"] = rng.random() < 0.5
         r["table"] = rng.random() < 0.4
         if rng.random() < 0.5:
             r["taper"] = [rat(1), rat(Fraction(rng.randint(-3, 3), 8)), rat(Fraction(rng.randint(-3, 3), 8))]
@@ -671,6 +728,8 @@ def run_prop(prop, qs, tier, seed, build, nrand_quick=40, nrand_thorough=600, wh
             restrain_flow_edges(pd, r["flow"])
         if q in ("fint", "kT", "kGc"):
             pd["m"], pd["n"] = min(pd["m"], 3), min(pd["n"], 3)
+            if q == "fint" and rng.random() < 0.3:
+                pd["m"], pd["n"] = rng.choice([(1, 5), (2, 5), (5, 2), (5, 1)])
             r = random_req(rng, pd, q)
             pd["Ncte"] = [rat(0)] * 3
         if q in ("kA", "cA", "kAmach", "uvw", "strain", "stress", "fext", "static", "fint", "kT", "kGc"):
@@ -696,6 +755,11 @@ def run_prop(prop, qs, tier, seed, build, nrand_quick=40, nrand_thorough=600, wh
                 r["ctor"] = True
             if k % 4 == 2 and r["q"] in ("k0", "kG0", "kM"):
                 r["nofin"] = True
+            if r["q"] in ("fint", "kT", "kGc"):
+                r["extra"] = [k % 3, 3 + (k % 2)]          # different orders along x and y
+                r["dflt"] = (k % 2 == 0)
+                if pd["n"] == 5:                            # exactly the exactness bound of each direction, by default
+                    r["extra"], r["dflt"] = [0, 0], True
             if k % 2 == 1 and r["q"] in STUDY_QS and not r.get("coff"):
                 kinds = SWEEP_KINDS if r["q"] in ("k0", "kG0", "kM") else SWEEP_KINDS[:8]
                 r["sweep"] = kinds[(k // 2) % len(kinds)]
@@ -713,6 +777,18 @@ def run_prop(prop, qs, tier, seed, build, nrand_quick=40, nrand_thorough=600, wh
         rep.nontrivial(key_of(pd, r))
     for what_, rp in extra_violations:
         rep.violation(what_, rp)
+    for q in qs:
+        if q in ("k0", "kG0", "kM"):           # bays whose skin tiles differ (own laminate / density / offset per add_panel)
+            try:
+                for (parts, r, obs, ok) in bay_sum_cases(rng, q, 4 if tier == "quick" else 40):
+                    g = [dict(ev="sum", id=eid, parts=parts, req=r, obs=obs, flags_ok=ok)]
+                    meta[eid] = (parts[0], dict(r, bay_tiles=len(parts)))
+                    eid += 1
+                    groups.append(g)
+                    rep.nontrivial(("baysum", q, repr(parts)))
+            except Exception as ex:
+                rep.violation("StiffPanelBay %s with individually defined skin panels raised %s: %s"
+                              % (q, type(ex).__name__, str(ex)[:200]), dict(q=q))
     for (pd, r, obs, ok) in extra_observed:      # already observed by the caller (e.g. through an assembly)
         g = [dict(ev="define", id=eid, pd=pd), dict(ev="eval", id=eid + 1, req=r, obs=obs, flags_ok=ok)]
         meta[eid + 1] = (pd, r)
@@ -722,7 +798,7 @@ def run_prop(prop, qs, tier, seed, build, nrand_quick=40, nrand_thorough=600, wh
     tcfg = ("CONSTANTS\nNFun = 8\nDeviations = {}\nTol = %d\nTolSolve = 30\nOpenKF = {%s}\n"
             % (TOL, ", ".join('"%s"' % k for k in kfs)))
     verdicts, results, problems = validate_trace(prop.lower() + "-tr", "Trace_PanelModel", tcfg, groups,
-                                                 timeout=6000, judged=lambda e: e["ev"] == "eval")
+                                                 timeout=6000, judged=lambda e: e["ev"] in ("eval", "sum"))
     for res in results:
         rep.add_tlc("Trace_PanelModel", res)
     for p in problems:
@@ -741,6 +817,14 @@ def run_prop(prop, qs, tier, seed, build, nrand_quick=40, nrand_thorough=600, wh
                           dict(pd=pd, req=r, bad=str(v[1])))
     rep.cov["traces_validated_against_impl"] = len(groups)
     rep.cov["evaluations"] = len(groups)
+    if prop == "C07":
+        # the same clause for assemblies (2..6 panels) and stiffened bays (skin, base, flange forces): Assembly.tla
+        import c13
+        c13.phase(rep, tier, seed, only={"fext"}, tag="c07asm")
+    if prop == "C08":
+        # assembly level: fint and kT add the connection force / stiffness and slice the global state per panel
+        import c13
+        c13.phase(rep, tier, seed, only={"fint", "kT"}, tag="c08asm")
     if prop in ("C02", "C07", "C19"):
         # the symmetrisation / null-column / scatter helpers these properties rest on (compmech/sparse.py)
         import sparseops
